@@ -216,6 +216,10 @@ def check(run: Run, tier: str, seed: int):
         if len(spec["layers"]) > (40 if tier == "quick" else 70):
             spec = gen.gen_spec(srng, nv=2, **o)
         ops = pipelines.random_ops(srng, spec, cls) if i % 2 == 1 else []
+        if i % 6 == 5 and cls != "expfam":
+            # squares of circuits with one-unit layers: Kronecker-parameterised sum layers (tensor-dot rewrite)
+            spec = gen.gen_spec(srng, **dict(o, units=[1, 1, 2], nv=srng.choice([1, 2, 3])))
+            ops = [{"op": "square"}]
         feats = gen.spec_features(spec)
         nontrivial = feats["had"] + feats["kron"] > 0 and any(d["t"] == "sum" for d in spec["layers"])
         semiring = srng.choice(semirings)
